@@ -14,7 +14,7 @@ import (
 	peer "github.com/libp2p/go-libp2p-core/peer"
 )
 
-var vrfEntries = map[string]func(){"VrfC01Snapshot": VrfC01Snapshot, "VrfC01StateOps": VrfC01StateOps}
+var vrfEntries = map[string]func(){"VrfC01Snapshot": VrfC01Snapshot, "VrfC01StateOps": VrfC01StateOps, "VrfC14StateRoundtrip": VrfC14StateRoundtrip}
 
 func vrfCid(i int) cid.Cid {
 	c, _ := cid.Decode([]string{
@@ -241,4 +241,43 @@ func VrfC01StateOps() {
 		}
 	}
 	vrf_reach("C01.state.end")
+}
+
+// VrfC14StateRoundtrip: serialising a state and deserialising it into an empty
+// one reproduces every pin, field by field - for pinsets whose entries have the
+// SAME serialized length but different contents (the case in which a decoder
+// that reuses its buffers, or a store that keeps what it is handed by reference,
+// would mix entries up).
+func VrfC14StateRoundtrip() {
+	ctx := context.Background()
+	src, _ := New(&vrfDS{}, "", nil)
+	names := []string{"alpha", "gamma", "delta"}
+	var want [3]*api.Pin
+	for i := 0; i < 3; i++ {
+		if vrf_choice("in_pinset", 2) == 1 {
+			p := api.PinCid(vrfCid(i))
+			p.Name = names[i]
+			p.ReplicationFactorMin, p.ReplicationFactorMax = 1, 2+i
+			p.Allocations = append(p.Allocations, vrfPeer(i%2))
+			want[i] = p
+			vrf_assert(src.Add(ctx, p) == nil, "C14.state.add-ok")
+		}
+	}
+	var buf bytes.Buffer
+	vrf_assert(src.Marshal(&buf) == nil, "C14.state.marshal-ok")
+	dst, _ := New(&vrfDS{}, "", nil)
+	vrf_assert(dst.Unmarshal(&buf) == nil, "C14.state.unmarshal-ok")
+	for i := 0; i < 3; i++ {
+		got, err := dst.Get(ctx, vrfCid(i))
+		if want[i] == nil {
+			vrf_assert(err != nil, "C14.state.nothing-invented")
+			continue
+		}
+		vrf_assert(err == nil, "C14.state.every-pin-back")
+		if err == nil {
+			vrf_assert(got.Name == want[i].Name && got.ReplicationFactorMax == want[i].ReplicationFactorMax && got.ReplicationFactorMin == 1, "C14.state.same-fields")
+			vrf_assert(len(got.Allocations) == 1 && got.Allocations[0] == want[i].Allocations[0], "C14.state.same-fields")
+		}
+	}
+	vrf_reach("C14.state.end")
 }
